@@ -533,6 +533,14 @@ def gen_jwe(ctx):
                 if alg != "ECDH-1PU":
                     add(entry, alg, "A128GCM", good, True, None, None, None, "SrcKey", sender=S())
                     add(entry, alg, "A256GCM", good, True, None, None, None, "SrcKey", sender=None)
+            if "Jwt" not in entry:
+                # the sender key is use-checked by the entry point whatever the algorithm
+                sk = good if fam == "1PU" else rng.choice([k for k in KINDS if k[0] in ("EC", "OKP")])
+                add(entry, alg, enc, good, True, None, None, None, "SrcKey", sender=snd(sk, use="sig"))
+                add(entry, alg, enc, good, True, "enc", None, None, "SrcKey", sender=snd(sk, use="enc"))
+                add(entry, alg, enc, good, True, "sig", None, None, "SrcKey", sender=snd(sk, use="sig"))
+                if fam != "1PU":
+                    add(entry, alg, enc, good, True, None, None, None, src2(), sender=snd(sk))
             others = [k for k in KINDS if k not in fit]
             for kind in (others if not ctx.quick else rng.sample(others, min(3, len(others)))):
                 add(entry, alg, enc, kind, rng.choice([True, True, False]), rng.choice([None, None, "sig", "enc"]),
@@ -689,8 +697,11 @@ def unsafe_texts(mats, rng):
             out.append((label + " OpenSSH private", prv.private_bytes(ser.Encoding.PEM, ser.PrivateFormat.OpenSSH, ser.NoEncryption()), True))
     base = [t for t in out if t[2]]
     # gap candidates (reported, not raised): leading whitespace / BOM, DER
-    for lab, txt, _ in rng.sample(base, 6):
-        for pre, n in ((b" ", "space"), (b"\n", "newline"), (b"\t", "tab"), (b"\r\n", "crlf"), (b"\xef\xbb\xbf", "bom")):
+    for lab, txt, _ in rng.sample(base, 8):
+        for pre, n in ((b" ", "space"), (b"\n", "newline"), (b"\t", "tab"), (b"\r\n", "crlf"), (b"\x0b", "VT"),
+                       (b"\x0c", "FF"), (b" \t\r\n \x0b\x0c\n", "whitespace run")):
+            out.append((lab + " with leading " + n, pre + txt, True))
+        for pre, n in ((b"\xef\xbb\xbf", "bom"), (b"\x00", "NUL"), (b"\xc2\xa0", "nbsp"), (b"\x1c", "FS")):
             out.append((lab + " with leading " + n, pre + txt, None))
     out.append(("RFC4716 public key block", b"---- BEGIN SSH2 PUBLIC KEY ----\nAAAA\n---- END SSH2 PUBLIC KEY ----\n", True))
     out.append(("ssh-dss line", b"ssh-dss AAAAB3NzaC1kc3MAAACB", True))
@@ -771,8 +782,10 @@ def judge(d, out, args):
         return "jwe-unsuitable-key-accepted"
     if not use_ok(k, "enc"):
         if d["entry"] in JWE_PRE:
-            return "candidate:preattached-use"      # reported, not raised (see meta / final report)
+            return "jwe-preattached-use-mismatch-accepted"
         return "jwe-use-mismatch-accepted"
+    if args["sinfo"] is not None and not use_ok(args["sinfo"], "enc"):
+        return "jwe-sender-use-mismatch-accepted"
     return None
 
 
@@ -830,8 +843,6 @@ def run(ctx):
         if v and v.startswith("candidate:"):
             cand[v] = cand.get(v, 0) + 1
         elif v:
-            if exported is None:
-                exported = {}
             ctx.violation({"kind": v, "entry": d["entry"], "alg": d["alg"]},
                           "the call succeeded with an unsuitable key: " + describe(d),
                           {"desc": d, "jwks": export_mats(mats, d), "outcome": out})
@@ -902,7 +913,7 @@ def run(ctx):
             ctx.violation({"kind": "unsafe-import-not-flagged"},
                           "importing %s as an oct key gave no warning" % label, {"text_hex": text.hex(), "label": label})
         if must is None and not w and ("leading" in label or "as_der" in label):
-            g = "leading-whitespace" if "leading" in label else "DER"
+            g = "leading-non-whitespace (BOM, NUL, nbsp, FS)" if "leading" in label else "DER"
             gaps[g] = gaps.get(g, 0) + 1
     dist["unsafe_import"] = nwarn
 
@@ -913,8 +924,7 @@ def run(ctx):
     o1, _ = outcome(lambda: k_s.check_key_op("wrapKey"))
     probes["key_ops given as the JSON string 'unwrapKey': import accepted; check_key_op('wrapKey')"] = o1
     ctx.notes.append("candidates (not raised): %s" % json.dumps(
-        {"preattached recipient key with use=sig accepted by encrypt_json": cand.get("candidate:preattached-use", 0),
-         "unsafe-import gaps (no warning)": gaps, **probes}))
+        {"unsafe-import gaps (no warning)": gaps, **probes}))
 
     ctx.coverage["input_distribution"] = dist
     ctx.coverage["verdict_classes"] = verdicts
